@@ -229,6 +229,16 @@ ValidateRevocation(s, n, secret, AtomicRevocation) ==
 \*   v < 6 : GetPerCommitmentPoint(n) also returns secret n-2 (n >= 2)
 \* The two parts are not one atomic step in the code: when the second part refuses, what the
 \* first part changed stays (modelled as is).
+\* Every composite has two wire forms with the same semantics: the semantic ("2"-suffixed, LDK)
+\* message and the RAW-transaction message of stock CLN ("...Raw": the canonical transaction of the
+\* named content plus a PSBT carrying witness scripts / wallet paths):
+\*   HValidate / HValidateRaw               ValidateCommitmentTx2 / ValidateCommitmentTx
+\*   HSignCp / HSignCpRaw                   SignRemoteCommitmentTx2 / SignRemoteCommitmentTx
+\*   HSignMutualClose / HSignMutualCloseRaw SignMutualCloseTx2 / SignMutualCloseTx
+\*   HSignHolder / HSignCommitment          SignLocalCommitmentTx2 / SignCommitmentTx (root handler,
+\*                                          lock_time # 0: everything but the number is ignored)
+\*   HSignCommitmentClose                   SignCommitmentTx with lock_time = 0: the handler's
+\*                                          workaround treats it as SignMutualCloseTx
 HValidate(s, v, n, c, sig, RCC) ==
   LET o1 == ValidateHolder(s, n, c, sig) IN
   IF ~o1.resp.ok THEN Err(s)
@@ -273,10 +283,16 @@ Step(s, r, k) ==
                                                           k.atomicRevocation)
     [] r.op = "Restart"             -> Ok(s)
     [] r.op = "HValidate"           -> HValidate(s, r.v, r.n, r.c, r.sig, k.revokeChecksClosed)
+    [] r.op = "HValidateRaw"        -> HValidate(s, r.v, r.n, r.c, r.sig, k.revokeChecksClosed)
     [] r.op = "HRevoke"             -> HRevoke(s, r.v, r.n, k.revokeChecksClosed)
     [] r.op = "HGetPoint"           -> HGetPoint(s, r.v, r.n)
     [] r.op = "HSignHolder"         -> SignHolder(s, r.n)
+    [] r.op = "HSignCommitment"     -> SignHolder(s, r.n)
     [] r.op = "HSignCp"             -> SignCp(s, r.n, r.t, r.c)
+    [] r.op = "HSignCpRaw"          -> SignCp(s, r.n, r.t, r.c)
+    [] r.op = "HSignMutualClose"    -> SignMutualClose(s, r.c)
+    [] r.op = "HSignMutualCloseRaw" -> SignMutualClose(s, r.c)
+    [] r.op = "HSignCommitmentClose" -> SignMutualClose(s, r.c)
     [] r.op = "HValidateRevocation" -> ValidateRevocation(s, r.n, [t |-> r.t, n |-> r.m],
                                                           k.atomicRevocation)
     [] OTHER                        -> Err(s)
@@ -305,7 +321,7 @@ Ghost(g, r, resp, ph, nhPre, mon) ==
       disc(n) == IF n >= 0 THEN {n} ELSE {}
       g1 == IF (m1 \/ m2) /\ resp.ok /\ resp.sec >= 0
                  /\ r.op \in {"GetSecret", "GetSecretOrNone", "Revoke",
-                              "HValidate", "HRevoke", "HGetPoint"}
+                              "HValidate", "HValidateRaw", "HRevoke", "HGetPoint"}
             THEN [g EXCEPT !.disclosed = @ \cup disc(resp.sec),
                            !.stubLeak = @ \/ ph = "stub"]
             ELSE g
@@ -316,15 +332,15 @@ Ghost(g, r, resp, ph, nhPre, mon) ==
   IN
   \* a handler validate that is refused by its SECOND part has still accepted the commitment:
   \* for handler requests "presented with verifying signatures" is what is observable
-  IF r.op = "HValidate" /\ r.sig = "good" /\ m1 /\ ~resp.ok
+  IF r.op \in {"HValidate", "HValidateRaw"} /\ r.sig = "good" /\ m1 /\ ~resp.ok
   THEN [g1 EXCEPT !.acceptedValid = @ \cup {r.n}]
   ELSE IF ~resp.ok THEN g1
-  ELSE CASE r.op \in {"ValidateHolder", "ValidateHolderRaw", "HValidate"} /\ r.sig = "good" /\ m1
+  ELSE CASE r.op \in {"ValidateHolder", "ValidateHolderRaw", "HValidate", "HValidateRaw"} /\ r.sig = "good" /\ m1
               -> [g1 EXCEPT !.acceptedValid = @ \cup {r.n}]
-         [] r.op \in {"SignHolder", "HSignHolder"} -> signed(r.n)
+         [] r.op \in {"SignHolder", "HSignHolder", "HSignCommitment"} -> signed(r.n)
          [] r.op = "SignHolderRedundant" -> signed(r.n)
          [] r.op = "SignHolderRecovery"  -> signed(nhPre - 1)
-         [] r.op \in {"SignCp", "HSignCp"} /\ m3
+         [] r.op \in {"SignCp", "HSignCp", "HSignCpRaw"} /\ m3
               -> [g1 EXCEPT !.cpSigned = @ \cup {<<r.n, [t |-> r.t, n |-> r.n], r.c>>},
                             !.badSignCp = @ \/ \E j \in 0..(r.n - 2) : j \notin g1.cpRevoked]
          [] r.op \in {"ValidateRevocation", "HValidateRevocation"} /\ m3
@@ -403,14 +419,27 @@ PrefixGhost(B) ==
                     !.cpRevoked = 0..(B - 2),
                     !.cpSecrets = {<<n, [t |-> "A", n |-> n]>> : n \in 0..(B - 2)}]
 
-\* protocol-handler level alphabet (protocol versions 4, 5, 6)
+\* protocol-handler level alphabet (protocol versions 4, 5, 6).
+\* Mutual close: the handler alphabet signs counterparty commitments of content "A" only, so a
+\* close for "A" or "P" (within epsilon of "A") can be accepted; "B" is the close that agrees with
+\* a holder commitment "B" but never with the counterparty's.
+HandlerCloseContents == {"A", "B", "P"}
 HandlerRequests(N, HC, TT) ==
-       {[op |-> "HValidate", v |-> v, n |-> n, c |-> c, sig |-> sg] :
+       {[op |-> op, v |-> v, n |-> n, c |-> c, sig |-> sg] :
+            op \in {"HValidate", "HValidateRaw"},
             v \in {4, 5, 6}, n \in 0..N + 1, c \in HC, sg \in {"good", "badcommit"}}
+  \* a commitment WITH an HTLC through the raw message (HTLC list, HTLC witness scripts in the PSBT,
+  \* HTLC signatures), at the last explored numbers only: the content enlarges the state space
+  \cup {[op |-> "HValidateRaw", v |-> v, n |-> n, c |-> "H", sig |-> sg] :
+            v \in {4, 5, 6}, n \in N..N + 1, sg \in {"good", "badhtlc"}}
   \cup {[op |-> "HRevoke", v |-> v, n |-> n] : v \in {4, 5, 6}, n \in 0..N}
   \cup {[op |-> "HGetPoint", v |-> v, n |-> n] : v \in {4, 5, 6}, n \in 0..N + 2}
-  \cup {[op |-> "HSignHolder", n |-> n] : n \in 0..N}
-  \cup {[op |-> "HSignCp", n |-> n, t |-> t, c |-> c] : n \in 0..1, t \in TT, c \in {"A"}}
+  \cup {[op |-> op, n |-> n] : op \in {"HSignHolder", "HSignCommitment"}, n \in 0..N}
+  \cup {[op |-> op, n |-> n, t |-> t, c |-> c] :
+            op \in {"HSignCp", "HSignCpRaw"}, n \in 0..1, t \in TT, c \in {"A"}}
+  \cup {[op |-> op, c |-> c] :
+            op \in {"HSignMutualClose", "HSignMutualCloseRaw", "HSignCommitmentClose"},
+            c \in HandlerCloseContents}
   \cup {[op |-> "HValidateRevocation", n |-> n, t |-> t, m |-> n] : n \in 0..1, t \in TT}
   \cup {[op |-> "Restart"]}
 =============================================================================
